@@ -6,8 +6,8 @@ usage: tools/recheck.py [--out FILE] [--apply FILE] [seed-name-prefix ...]
 
   default      run, print one line per seed, write {seed: {"rc", "buckets", "verif_seed"}} to --out (default
                /var/tmp/recheck.json); with name prefixes only those seeds (e.g. seed7 seed8a-C05)
-  --apply FILE merge such a file into seeded/*/meta.json as "caught_now" (list: the target property if its quick check
-               reported a violation on the patched tree) - meta.json's first-pass "caught_by" is left as it is
+  --apply FILE merge such a file into seeded/*/meta.json: the target check's entry under "checks" is replaced by the new
+               outcome and "caught_by" recomputed (the bookkeeping of tools/seed_eval.py)
 """
 import glob, json, os, shutil, subprocess, sys, tempfile
 
@@ -25,8 +25,13 @@ if "--apply" in args:
         if not os.path.exists(f):
             continue
         m = json.load(open(f))
-        m["caught_now"] = [m["breaks_property"]] if r["rc"] == 1 and r["buckets"] else []
-        m["caught_now_detail"] = {"rc": r["rc"], "buckets": r["buckets"], "verif_seed": r["verif_seed"], "verif_commit": r.get("verif_commit")}
+        if r["rc"] not in (0, 1):
+            print("skipped (no verdict):", seed, r)
+            continue
+        # same bookkeeping as tools/seed_eval.py: the latest outcome per check, caught_by derived from it
+        m.setdefault("checks", {})[m["breaks_property"]] = {"rc": r["rc"], "violations": r["buckets"], "first": "", "wall_s": None,
+                                                            "rechecked_at_verif_commit": r.get("verif_commit")}
+        m["caught_by"] = sorted(c for c, v in m["checks"].items() if v["rc"] == 1)
         json.dump(m, open(f, "w"), indent=1)
         n += 1
     print("applied", n)
